@@ -23,8 +23,8 @@ F_OVERLAP = 'C03-superfluous-id'
 
 def sizes(ctx):
     if ctx.quick:
-        return dict(core=900, excon=300)
-    return dict(core=18000, excon=5000)
+        return dict(core=900, excon=300, flags=200)
+    return dict(core=18000, excon=5000, flags=4000)
 
 def gen_cases(ctx):
     rng = ctx.rng
@@ -42,6 +42,11 @@ def gen_cases(ctx):
     for i in range(n['excon']):
         c = CG.gen_case(rng, coding_p=0.8)
         c['runs'] = [CG.gen_run(rng, rule='trypsin', exc_on=True)]; c['stream'] = 'excon'
+        cases.append(c)
+    for i in range(n.get('flags', 0)):
+        c = CG.gen_case(rng, coding_p=0.85)
+        sect, w2f = rng.choice([(True, False), (False, True), (True, True)])
+        c['runs'] = [CG.gen_run(rng, rule='trypsin', exc_on=False, sect=sect, w2f=w2f)]; c['stream'] = 'flags'
         cases.append(c)
     return cases
 
@@ -129,20 +134,62 @@ def classify_entry(ev, tx_id, x, recs, p, ids_idx):
         return CK.F_D14
     return F_D12 if 'fs' in kinds else F_STOPHDR
 
+def classify_alt_entry(ev, tx_id, x, recs, p, ids_idx, sect, w2f):
+    """same mechanisms for an entry that also names generated SECT / W2F identifiers (witness_ok_fl)"""
+    def wit(sets):
+        return O.call('cv_witness_fl', [x, [[p, sorted(sb), sect, w2f] for sb in sets]])
+    if len(ids_idx) > 1:
+        subs = [list(cb) for n in range(1, len(ids_idx)) for cb in itertools.combinations(ids_idx, n)
+                if _pairwise_ok([recs[i] for i in cb])]
+        if subs and any(wit(subs)):
+            return F_OVERLAP
+    if not _pairwise_ok([recs[i] for i in ids_idx]):
+        return None
+    g, t = CK._tx_of(ev.case, tx_id)
+    if not t['cds']:
+        return None
+    others = [i for i in range(len(recs)) if i not in ids_idx]
+    added = None
+    for n in (1, 2, 3):
+        combos = list(itertools.combinations(others, n))
+        if not combos:
+            break
+        oks = wit([ids_idx + list(cb) for cb in combos])
+        hit = [cb for cb, ok in zip(combos, oks) if ok]
+        if hit:
+            added = list(hit[0]); break
+    if added is None:
+        return None
+    full = sorted(ids_idx + added)
+    start = SG.shift([recs[i] for i in full], t['cds'][0])
+    whole = O.U(O.call('cv_translate_at', [x, [1 if k in full else 0 for k in range(len(recs))], start]))
+    kinds = []
+    for i in added:
+        r = recs[i]
+        if (len(r['alt']) - (r['e'] - r['s'])) % 3 != 0:
+            kinds.append('fs'); continue
+        rest = [k for k in full if k != i]
+        aas = O.U(O.call('cv_translate_at', [x, [1 if k in rest else 0 for k in range(len(recs))],
+                                             SG.shift([recs[k] for k in rest], t['cds'][0])]))
+        kinds.append('stop' if len(aas) < len(whole) else None)
+    if None in kinds:
+        return None
+    return F_D12 if 'fs' in kinds else F_STOPHDR
+
 def judge(evs, violations, stats):
     reqs = []
     for ev in evs:
         st = ev.case.get('stream', '?').split(':')[0]
         stats['runs:' + st] += 1
         if ev.exc:
-            if not CK.is_nola_crash(ev.run, ev.exc):
-                violations.append({'what': 'callVariant aborted with %s (%s)' % (ev.exc['__exc__'], ev.exc.get('msg', '')[:120]),
-                                   'replay_obj': CK.replay_obj(ev, 'crash'), 'no_input': False})
+            violations.append({'what': 'callVariant aborted with %s (%s)' % (ev.exc['__exc__'], ev.exc.get('msg', '')[:120]),
+                               'replay_obj': CK.replay_obj(ev, 'crash'), 'no_input': False})
             continue
         ids_of = gvf_ids(ev.case)
         entries = []
         bad = collections.defaultdict(list)
         items = []
+        alt_items = []
         for seq, ents in ev.got.items():
             for e in ents:
                 entries.append(e)
@@ -167,6 +214,15 @@ def judge(evs, violations, stats):
                 if h['orf']:
                     stats['entries_with_orf'] += 1
                 stats['ids_per_entry:%d' % min(len(idx), 5)] += 1
+                if h['alts']:
+                    # generated SECT / W2F identifiers: only with the flag on, checked by witness_ok_fl
+                    sect = any(a.startswith('SECT-') for a in h['alts'])
+                    w2f = any(a.startswith('W2F-') for a in h['alts'])
+                    if (sect and not ev.run.get('sect')) or (w2f and not ev.run.get('w2f')):
+                        bad['alt-id-without-flag'].append((seq, e)); continue
+                    stats['entries_with_alt_ids'] += 1
+                    alt_items.append((seq, e, h['tx'], sorted(set(idx)), sect, w2f))
+                    continue
                 items.append((seq, e, h['tx'], sorted(set(idx))))
         if entries:
             stats['nontrivial'] += 1
@@ -184,6 +240,16 @@ def judge(evs, violations, stats):
                     continue
                 tag = classify_entry(ev, tx_id, ev.xs[tx_id], ev.recs[tx_id], s, idx)
                 bad['not-a-witness:%s' % (tag or '')].append((s, e))
+        by_tx_alt = collections.defaultdict(list)
+        for it in alt_items:
+            by_tx_alt[it[2]].append(it)
+        for tx_id, its in by_tx_alt.items():
+            oks = O.call('cv_witness_fl', [ev.xs[tx_id], [[s, idx, sect, w2f] for s, e, t, idx, sect, w2f in its]])
+            for (s, e, t, idx, sect, w2f), ok in zip(its, oks):
+                stats['witness_checked'] += 1
+                if not ok:
+                    tag = classify_alt_entry(ev, tx_id, ev.xs[tx_id], ev.recs[tx_id], s, idx, sect, w2f)
+                    bad['not-a-witness:%s' % (tag or '')].append((s, e))
         for kind, lst in bad.items():
             tag = kind.split(':')[1] if ':' in kind else ''
             stats['bad:%s' % kind] += len(lst)
